@@ -635,6 +635,9 @@ func (o *Origins) load(ld *ssa.UnOp, depth int) *Term {
 	case *ssa.IndexAddr:
 		return o.of(a, depth+1)
 	case *ssa.FreeVar:
+		if t := o.resolveFreeVar(a, depth); t != nil {
+			return t
+		}
 		return &Term{Op: "param", Name: "^" + a.Name()}
 	}
 	// *p for a pointer that is not a local: transparent (a struct and a pointer to it have the same origin)
@@ -1101,4 +1104,111 @@ func (o *Origins) compositeLiteral(a *ssa.Alloc, depth int) *Term {
 		res = &Term{Op: "call", Name: "with:" + fieldName(a.Type(), s.f), Args: []*Term{res, o.of(s.st.Val, depth+2)}}
 	}
 	return res
+}
+
+var parentOrigins = map[*ssa.Function]*Origins{}
+
+// resolveFreeVar: the value of a captured variable, when the enclosing function assigns it exactly once (before the
+// closure is made) and nothing else writes it: the origin term of that value in the enclosing function, with the
+// enclosing function's own parameters printed as captured ("^p"). The term keeps the captured name as an alias, so a
+// pattern may say either. Returns nil when the variable is a parameter of the enclosing function, is written more than
+// once, or cannot be resolved.
+func (o *Origins) resolveFreeVar(fv *ssa.FreeVar, depth int) *Term {
+	if depth > maxDepth-4 {
+		return nil
+	}
+	parent := o.Fn.Parent()
+	if parent == nil {
+		return nil
+	}
+	idx := -1
+	for i, f := range o.Fn.FreeVars {
+		if f == fv {
+			idx = i
+		}
+	}
+	if idx < 0 {
+		return nil
+	}
+	var mc *ssa.MakeClosure
+	for _, b := range parent.Blocks {
+		for _, ins := range b.Instrs {
+			if m, ok := ins.(*ssa.MakeClosure); ok && m.Fn == o.Fn {
+				if mc != nil {
+					return nil
+				}
+				mc = m
+			}
+		}
+	}
+	if mc == nil || idx >= len(mc.Bindings) {
+		return nil
+	}
+	al, ok := mc.Bindings[idx].(*ssa.Alloc)
+	if !ok {
+		return nil
+	}
+	var st *ssa.Store
+	for _, r := range *al.Referrers() {
+		switch x := r.(type) {
+		case *ssa.Store:
+			if x.Addr != al || st != nil {
+				return nil
+			}
+			st = x
+		case *ssa.MakeClosure, *ssa.UnOp, *ssa.DebugRef:
+		default:
+			return nil // address escapes otherwise
+		}
+	}
+	if st == nil || !InstrDominates(st, mc) {
+		return nil
+	}
+	if _, isParam := st.Val.(*ssa.Parameter); isParam {
+		return nil // a captured parameter keeps its plain captured name
+	}
+	// no closure writes the variable
+	for _, an := range parent.AnonFuncs {
+		for i, f := range an.FreeVars {
+			_ = i
+			if f.Name() != fv.Name() {
+				continue
+			}
+			for _, r := range *f.Referrers() {
+				if s, ok := r.(*ssa.Store); ok && s.Addr == f {
+					return nil
+				}
+			}
+		}
+	}
+	po := parentOrigins[parent]
+	if po == nil {
+		po = NewOrigins(parent)
+		parentOrigins[parent] = po
+	}
+	t := po.Of(st.Val)
+	if t == nil || t.Op == "opaque" {
+		return nil
+	}
+	c := captureRename(t)
+	c.Alias = "^" + fv.Name()
+	return c
+}
+
+// captureRename: a deep copy of t in which the enclosing function's parameters are printed as captured variables.
+func captureRename(t *Term) *Term {
+	if t == nil {
+		return nil
+	}
+	c := *t
+	if c.Op == "param" && !strings.HasPrefix(c.Name, "^") && !strings.HasPrefix(c.Name, "#") {
+		c.Name = "^" + c.Name
+	}
+	if len(t.Args) > 0 {
+		c.Args = make([]*Term, len(t.Args))
+		for i, a := range t.Args {
+			c.Args[i] = captureRename(a)
+		}
+	}
+	return &c
 }
